@@ -584,6 +584,24 @@ var hdrClauses = map[string]func(hdrInput) string{
 					rom.Header.HeaderVersion(), j, j-0x7FB0, before[j], rom.Contents[j])
 			}
 		}
+		// the same ROM object again: patch one header byte in the image (in.i, in.b), re-read, write back; then a
+		// third round with the original bytes restored (no state may be carried from one call to the next)
+		for round, patch := range [][2]int{{in.i % 80, int(in.b)}, {in.i % 80, int(before[0x7FB0+in.i%80])}} {
+			rom.Contents[0x7FB0+patch[0]] = byte(patch[1])
+			want := append([]byte(nil), rom.Contents...)
+			if err := rom.ReadHeader(); err != nil {
+				return fmt.Sprintf("round %d: ReadHeader: %v", round+2, err)
+			}
+			if err := rom.WriteHeader(); err != nil {
+				return fmt.Sprintf("round %d: WriteHeader: %v", round+2, err)
+			}
+			for j := range want {
+				if rom.Contents[j] != want[j] {
+					return fmt.Sprintf("round %d on the same ROM object (header byte $%02X patched to $%02X, version %d): byte $%06X (header offset $%02X) was $%02X, is $%02X after ReadHeader+WriteHeader",
+						round+2, patch[0], patch[1], rom.Header.HeaderVersion(), j, j-0x7FB0, want[j], rom.Contents[j])
+				}
+			}
+		}
 		return ""
 	},
 	// serialise(parse bs) is 80 bytes and parses back to an identical header
